@@ -30,8 +30,10 @@ func c18Schema() TxnSchema {
 	str := ColType{Kind: "atom", Key: "string", Min: 1, Max: 1}
 	num := ColType{Kind: "atom", Key: "integer", Min: 1, Max: 1}
 	spec := SchemaSpec{Name: "db", Tables: []TableSpec{
-		{Name: "Pair", IsRoot: true, Cols: []ColSpec{{Name: "name", Type: str}, {Name: "n", Type: num},
-			{Name: "s", Type: ColType{Kind: "set", Key: "integer", Min: 0, Max: -1}}, {Name: "m", Type: ColType{Kind: "map", Key: "string", Val: "integer", Min: 0, Max: -1}}}},
+		// "key" never changes and has a schema index: rows can be looked up through it
+		{Name: "Pair", IsRoot: true, Indexes: [][]string{{"key"}}, Cols: []ColSpec{{Name: "name", Type: str}, {Name: "n", Type: num},
+			{Name: "s", Type: ColType{Kind: "set", Key: "integer", Min: 0, Max: -1}}, {Name: "m", Type: ColType{Kind: "map", Key: "string", Val: "integer", Min: 0, Max: -1}},
+			{Name: "key", Type: str}}},
 		{Name: "Other", IsRoot: true, Cols: []ColSpec{{Name: "name", Type: str}, {Name: "n", Type: num}}},
 	}}
 	ts := TxnSchema{Spec: spec, Specs: map[string][]ISpec{"Pair": {}, "Other": {}}}
@@ -265,7 +267,9 @@ func c18Run(r *Run, h int) {
 	var setup []OperationJ
 	nRows := 4
 	for i := 0; i < nRows; i++ {
-		setup = append(setup, OperationJ{Op: "insert", Table: "Pair", UUID: mkUUID(i + 1), Row: pairRow(int64(i))})
+		row := pairRow(int64(i))
+		row["key"] = VA(AS(fmt.Sprintf("r%d", i+1)))
+		setup = append(setup, OperationJ{Op: "insert", Table: "Pair", UUID: mkUUID(i + 1), Row: row})
 	}
 	setup = append(setup, OperationJ{Op: "insert", Table: "Other", UUID: mkUUID(50), Row: Row{"name": VA(AS("o")), "n": VA(AI(0))}})
 	rig.im.transact(setup, nil)
@@ -351,16 +355,42 @@ func c18Run(r *Run, h int) {
 					ms = append(ms, res.Elem().Index(i).Interface())
 				}
 				checkModels(ms)
+				for _, m := range ms {
+					mutateModel(m)
+				}
 			}
 			return err
 		})
 	})
+	// readers that find a row through the schema index and then use what they got as their own: two of them,
+	// so that a result that is not a private copy is written by two goroutines
+	for k := 0; k < 2; k++ {
+		spawn(rng.Int63(), func(lr *rand.Rand) {
+			stat.call("Where(index).List", limit, func(ctx context.Context) error {
+				probe := adb.NewModel("Pair", "", Row{"key": VA(AS(fmt.Sprintf("r%d", 1+lr.Intn(nRows))))})
+				res := reflect.New(reflect.SliceOf(reflect.PtrTo(pairType)))
+				err := a.Where(probe).List(ctx, res.Interface())
+				if err == nil {
+					var ms []model.Model
+					for i := 0; i < res.Elem().Len(); i++ {
+						ms = append(ms, res.Elem().Index(i).Interface())
+					}
+					checkModels(ms)
+					for _, m := range ms {
+						mutateModel(m)
+					}
+				}
+				return err
+			})
+		})
+	}
 	spawn(rng.Int63(), func(lr *rand.Rand) {
 		stat.call("Get", limit, func(ctx context.Context) error {
 			m := adb.NewModel("Pair", mkUUID(1+lr.Intn(nRows)), nil)
 			err := a.Get(ctx, m)
 			if err == nil {
 				checkModels([]model.Model{m})
+				mutateModel(m)
 			}
 			return err
 		})
@@ -374,6 +404,9 @@ func c18Run(r *Run, h int) {
 						ms = append(ms, m)
 					}
 					checkModels(ms)
+					for _, m := range ms {
+						mutateModel(m)
+					}
 				}
 			}
 		}()
